@@ -204,6 +204,14 @@ func sessExec(tr *vh.Transcript, ops []string) {
 				pc.send(`{"id":null,"method":"mining.set_version_mask","params":["%s"]}`, f[2])
 			}
 			after(op)
+		case "mraw": // the miner sends a raw line (hex of its bytes)
+			s.miner.send("%s", string(c14Unhex(f[1])))
+			after(op)
+		case "praw": // the pool's newest live connection sends a raw line
+			if pc := s.lastConn(f[1]); pc != nil {
+				pc.send("%s", string(c14Unhex(f[2])))
+			}
+			after(op)
 		case "submit":
 			if f[7] == "-" {
 				s.miner.send(`{"id":%s,"method":"mining.submit","params":["%s","%s","%s","%s","%s"]}`, f[1], f[2], f[3], f[4], f[5], f[6])
